@@ -53,9 +53,12 @@ def run(chk, repo, tier):
     chk.clause('C14-e', 'Planck formula: dimensions and textbook normal form', 3)
     chk.clause('C14-f', 'physical constants within 1e-6 of CODATA', 3)
     chk.clause('C14-g', 'waveunit/valueunit are passed to like-named parameters', 4)
+    chk.clause('C14-h', 'Vega zero point conversion Jy -> photons per wavelength', 1)
     chk.not_decided += ['Wien peak and Stefan-Boltzmann integral numerically (follow from C14-e/f)']
     chk.stats['exhaustive'] = True
 
+    from .extra_rules import vegaflux_rule
+    vegaflux_rule(chk, repo, 'C14-h')
     units = list(WAVE_CLASSES)
     # ---------------------------------------------------------------- C14-a
     fac = {}
